@@ -92,6 +92,9 @@ func hookHandler(name string, args ...interface{}) {
 	}
 	v, ok := mons.Load(args[0])
 	if !ok {
+		if balanceOn.Load() {
+			balanceHook(name, args[0]) // a manager built by a real caller (stage "callers")
+		}
 		return
 	}
 	m := v.(*mgrMon)
@@ -270,50 +273,45 @@ func analyze(r *vf.Run, sc *scenario) {
 			}
 		}
 	}
-	var liveWho []string
-	live := func(T int64) int {
-		n := 0
-		liveWho = liveWho[:0]
-		for _, inv := range invs {
-			j := -1
-			for a, st := range inv.startTs {
-				if st <= T {
-					j = a
-				}
-			}
-			if j < 0 {
-				continue
-			}
+	// sweep: #running(T) = #(s<=T) - #(e<=T); the live attempts of one invocation are disjoint
+	// intervals [start decision, cancel) / [last start decision, end of the last attempt's body)
+	var sS, sE, lS, lE []int64
+	for _, x := range ivs {
+		sS, sE = append(sS, x.s), append(sE, x.e)
+	}
+	type liveIv struct {
+		inv  *invocation
+		j    int
+		a, b int64
+	}
+	var lives []liveIv
+	for _, inv := range invs {
+		for j, st := range inv.startTs {
+			end := int64(0)
 			if j < len(inv.cancelTs) {
-				if inv.cancelTs[j] > T {
-					n++
-					liveWho = append(liveWho, fmt.Sprintf("inv%d attempt%d start=%d cancel=%d", inv.id, j, inv.startTs[j], inv.cancelTs[j]))
-				}
-				continue
+				end = inv.cancelTs[j]
+			} else if j == len(inv.startTs)-1 {
+				end = finalEnd[inv]
 			}
-			if T < finalEnd[inv] {
-				n++
-				liveWho = append(liveWho, fmt.Sprintf("inv%d attempt%d(last of %d) start=%d bodyend=%d cancels=%d", inv.id, j, len(inv.startTs), inv.startTs[j], finalEnd[inv], len(inv.cancelTs)))
+			if end > st {
+				lives = append(lives, liveIv{inv, j, st, end})
+				lS, lE = append(lS, st), append(lE, end)
 			}
 		}
-		return n
 	}
+	for _, a := range [][]int64{sS, sE, lS, lE} {
+		sort.Slice(a, func(i, j int) bool { return a[i] < a[j] })
+	}
+	countLE := func(a []int64, T int64) int { return sort.Search(len(a), func(i int) bool { return a[i] > T }) }
 	var instants []int64
-	for _, x := range ivs {
-		instants = append(instants, x.s)
-	}
+	instants = append(instants, sS...)
 	for _, ev := range starts {
 		instants = append(instants, ev.ts)
 	}
 	maxRun, maxLive := 0, 0
 	for _, T := range instants {
-		run := 0
-		for j := range ivs {
-			if ivs[j].s <= T && T < ivs[j].e {
-				run++
-			}
-		}
-		lv := live(T)
+		run := countLE(sS, T) - countLE(sE, T)
+		lv := countLE(lS, T) - countLE(lE, T)
 		if run > maxRun {
 			maxRun = run
 		}
@@ -321,9 +319,15 @@ func analyze(r *vf.Run, sc *scenario) {
 			maxLive = lv
 		}
 		if lv > sc.conc {
+			var who []string
+			for _, l := range lives {
+				if l.a <= T && T < l.b && len(who) < 70 {
+					who = append(who, fmt.Sprintf("inv%d attempt%d of %d [%d,%d) cancels=%d", l.inv.id, l.j, len(l.inv.startTs), l.a, l.b, len(l.inv.cancelTs)))
+				}
+			}
 			r.Violate("concurrency-exceeded",
 				fmt.Sprintf("%d attempts were between their start decision and their cancel/body end at one instant with concurrency %d (%d bodies running)", lv, sc.conc, run),
-				replay(map[string]any{"instant": T, "running_bodies": run, "live_attempts": lv, "live": append([]string(nil), liveWho...)}))
+				replay(map[string]any{"instant": T, "running_bodies": run, "live_attempts": lv, "live": who}))
 		} else if run > sc.conc {
 			r.Violate("concurrency-exceeded-by-cancelled-body",
 				fmt.Sprintf("%d bodies were running at one instant with concurrency %d, only %d of them in an attempt that had not been cancelled yet: the others are cancelled bodies that outlive their semaphore slot (the slot is released without waiting for the cancelled body)", run, sc.conc, lv),
@@ -370,6 +374,15 @@ func analyze(r *vf.Run, sc *scenario) {
 		ntMixed = append(ntMixed, sc.desc)
 		r.Count("scenarios_with_cancel_and_retry", 1)
 	}
+	if sc.family == famBegin {
+		r.Count("beginrace_scenarios", 1)
+		r.Count("beginrace_prioritized_tasks", len(doneT))
+		r.Count("beginrace_bodies", bodies)
+		r.Count("beginrace_bodies_running_while_a_task_was_in_progress_and_then_cancelled", probesJudged)
+		if probesJudged > 0 {
+			ntBegin = append(ntBegin, sc.desc)
+		}
+	}
 	if sc.family == famLastDone {
 		// non-trivial: in some round invocations were entered on both sides of the announcement
 		// of that round's last decrement, i.e. some invoker had to be woken by that very broadcast
@@ -405,7 +418,7 @@ func analyze(r *vf.Run, sc *scenario) {
 			ntLastDone = append(ntLastDone, sc.desc)
 		}
 	}
-	if sc.idx < 3 || sc.idx == lastDoneBase {
+	if sc.idx < 3 || sc.idx == lastDoneBase || sc.idx == beginBase {
 		r.Sample(map[string]any{"case": sc.idx, "scenario": sc.desc, "start_decisions": len(starts), "bodies": bodies,
 			"cancelled_bodies": cancelled, "invocations_retried": retried, "max_running_together": maxRun,
 			"pbegin": m.pbeginA.Load(), "pend": m.pendEmitted.Load(), "cancel_hooks": m.cancels.Load()})
